@@ -29,12 +29,20 @@ class DesignSampler(Sampler):
         self._index = sampler_index
         self._mask = mask
         self._plugin = plugin
+        self._kept: dict[int, NDArray[np.float64]] = {}
 
     def generate_samples(self) -> NDArray[np.float64]:
         plugin = self._plugin
         seq = plugin.samples
-        samples = np.array(seq[min(plugin.calls, len(seq) - 1)], dtype=np.float64)
+        index = min(plugin.calls, len(seq) - 1)
         plugin.calls += 1
+        if plugin.nocopy:
+            # a sampler that keeps its design and hands out the very same array on every call
+            if index not in self._kept:
+                base = np.array(seq[index], dtype=np.float64)
+                self._kept[index] = base if self._mask is None else np.where(self._mask, base, 0.0)
+            return self._kept[index]
+        samples = np.array(seq[index], dtype=np.float64)
         if self._mask is not None:
             samples = np.where(self._mask, samples, 0.0)
         return samples
@@ -43,9 +51,10 @@ class DesignSampler(Sampler):
 class DesignSamplerPlugin(SamplerPlugin):
     """`samples` is a list of (R, P, n) arrays used for consecutive calls."""
 
-    def __init__(self, samples: list[NDArray[np.float64]] | None = None) -> None:  # noqa: D107
+    def __init__(self, samples: list[NDArray[np.float64]] | None = None, *, nocopy: bool = False) -> None:  # noqa: D107
         self.samples: list[NDArray[np.float64]] = samples or []
         self.calls = 0
+        self.nocopy = nocopy
 
     def create(self, enopt_config: EnOptConfig, sampler_index: int, mask: Any, rng: Any) -> DesignSampler:  # noqa: ANN401
         return DesignSampler(enopt_config, sampler_index, mask, rng, self)
